@@ -10,6 +10,7 @@ from dask.base import tokenize
 from dask.utils import SerializableLock
 
 from dask_array.io._base import IO
+from dask_array._expr import _chunk_spec_reads_config
 from dask_array._core_utils import (
     getter,
     getter_nofancy,
@@ -293,6 +294,10 @@ class FromArray(IO):
                 self._determ_token = (type(self), self.operand("_name_override"))
             else:
                 operands = [lock_token if p == "lock" else self.operand(p) for p in self._parameters]
+                if _chunk_spec_reads_config(self.operand("_chunks")):
+                    # "auto" resolves against array.chunk-size when ``chunks`` is first
+                    # read: the resolved grid, not just the spec, identifies the array
+                    operands.append(self.chunks)
                 try:
                     self._determ_token = _tokenize_deterministic(type(self), *operands)
                 except TokenizationError:
